@@ -265,6 +265,7 @@ int __wrap_pthread_join(pthread_t th, void **ret) {
   if (t_lib && r == 0) __sync_fetch_and_add(&g_joined, 1);
   if (t_lib && r != 0) {                      /* a join the library asked for and did not get: detached / never started / already joined thread */
     __real_pthread_mutex_lock(&reg_mx); g_bad_unlock++; misuse_note("join-failed", 'T', r); __real_pthread_mutex_unlock(&reg_mx);
+    if (getenv("VDRV_TRACE")) fprintf(stderr, "join-failed th=%lx rc=%d new=%d created=%d listener=%lx\n", (unsigned long)th, r, g_new, g_created, S ? (unsigned long)S->listener_thread : 0ul);
   }
   return r;
 }
@@ -499,6 +500,8 @@ static int run_stress(unsigned seed, int ypct, int nstay, int nabrupt, int nslow
   { int w = 0; while ((g_gone < g_new || g_new < ncycles) && w++ < sp(20000)) usleep(500); }
   /* listener still runs; no client is connected now.  A client whose teardown did not complete within
      the wait (its input thread blocked in THREAD_JOIN) still has its two threads alive. */
+  /* the gone hook runs in the middle of the teardown: give the threads of the finished cycles the time to end (2 per client) */
+  { int w = 0; while (g_ended < 2 * g_gone && w++ < sp(4000)) usleep(500); }
   stuck = g_new - g_gone; cycles_done = g_gone;
   zombies = g_created - 1 - g_joined - g_detached - 2 * stuck;   /* ended, neither joined nor detached */
   printf("#cycles n=%d new=%d gone=%d created=%d joined=%d detached=%d\n", ncycles, g_new, g_gone, g_created, g_joined, g_detached);
